@@ -771,7 +771,7 @@ class Parser:
 
         return meta
 
-    def parse_section_marker(self) -> Section | None:
+    def parse_section_marker(self, base_indent: int = 0) -> Section | None:
         """Parse §NUMBER::NAME or §IDENTIFIER::NAME section marker with nested children.
 
         Pattern: §NUMBER[SUFFIX]::NAME[bracket_tail] or §IDENTIFIER::[NAME] followed by indented children.
@@ -862,8 +862,9 @@ class Parser:
                 pre_indent_comments.append(self.current().value)
             self.advance()
 
-        # Expect indentation for children
-        if self.current().type == TokenType.INDENT:
+        # Expect indentation for children (deeper than the section marker's own line, so that
+        # a nested section without children does not adopt its next sibling)
+        if self.current().type == TokenType.INDENT and self.current().value > base_indent:
             child_indent = self.current().value
             self.advance()
 
@@ -890,6 +891,8 @@ class Parser:
 
                 # Issue #182: Collect comments as pending for next child
                 if self.current().type == TokenType.COMMENT:
+                    if current_line_indent < child_indent:
+                        break  # Comment on a shallower line belongs to the enclosing level
                     pending_comments.append(self.current().value)
                     self.advance()
                     continue
@@ -972,7 +975,7 @@ class Parser:
         """
         # Check for section marker first
         if self.current().type == TokenType.SECTION:
-            section = self.parse_section_marker()
+            section = self.parse_section_marker(base_indent)
             if section and leading_comments:
                 section.leading_comments = leading_comments
             return section
@@ -1091,8 +1094,10 @@ class Parser:
                     )
                 )
 
-            # Expect indentation for children
-            elif self.current().type == TokenType.INDENT:
+            # Expect indentation for children. Children are indented deeper than the block's
+            # own line: an INDENT at the block's own depth belongs to its next sibling (a
+            # block without children must not adopt the following lines).
+            elif self.current().type == TokenType.INDENT and self.current().value > base_indent:
                 child_indent = self.current().value
                 self.advance()
 
@@ -1120,6 +1125,8 @@ class Parser:
 
                     # Issue #182: Collect comments as pending for next child
                     if self.current().type == TokenType.COMMENT:
+                        if current_line_indent < child_indent:
+                            break  # Comment on a shallower line belongs to the enclosing level
                         pending_comments.append(self.current().value)
                         self.advance()
                         continue
